@@ -29,7 +29,8 @@ CLAIMED = {
     "C02": dict(
         text="Unbounded theorems (Props/C02.v): Function(U)[i,j](u) of the model equals Cox-de Boor N_i,j(u) (resp. the rational "
              "R_i,j) for all j <= p, all i incl. negative; N >= 0, N <= 1, support, partition of unity for every sub-degree; "
-             "IndexError / ValueError rejections. Tie: exact differential execution of Function objects (all (i,j), slices, "
+             "IndexError / ValueError rejections; the basis is linearly independent (locally on every non-empty span, and "
+             "over every well-formed vector: coefficients are determined by the function). Tie: exact differential execution of Function objects (all (i,j), slices, "
              "weights on/off) with spec-level oracle evaluated in Coq.",
         design="7/C02",
         technique="Coq proof (table_is_Nloc, partition of unity by induction) + correspondence by vm_compute",
@@ -74,8 +75,10 @@ CLAIMED = {
         technique="Coq proof (knot-vector algebra, certified inverse, tolerance guard) + correspondence and exact deviation oracle by vm_compute",
         note="Continuous-projection theorems (normal equations, error = squared residual, interpolation and multiplier form of the "
              "constrained fit) are in Props/C11.v. Polynomial curves only: the weighted (rational) projection of the library is lossy (known finding K1) and is kept "
-             "out of the model. 'Succeeds whenever exactly removable' is proved for knots that come from an insertion "
-             "(C05_undo_always_accepted) up to the model's inverse certificates (positive-definiteness of the Gram matrix is not "
+             "out of the model. 'Succeeds whenever exactly removable' is proved both for knots that come from an insertion "
+             "(C05_undo_always_accepted) and semantically - whenever SOME coefficient list over the coarser vector gives the same "
+             "function, removal is accepted under every tolerance and returns it (C05_removable_*, through linear independence of "
+             "B-splines) - up to the model's inverse certificates (positive-definiteness of the Gram matrix is not "
              "proved; the correspondence run counts Uncertified = 0). tolerance=None interpolation is required for degree >= 1 "
              "only (a degree-0 piecewise constant cannot interpolate both ends of a merged span)."),
     "C06": dict(
@@ -149,7 +152,9 @@ CLAIMED = {
              "exactly and sum to 1; closed/open nodes are the advertised equally spaced, strictly increasing points of [0,1]; "
              "every literal entry of the source's closed/open Newton-Cotes tables (regenerated from /repo on every run) "
              "equals the computed rule; and for every sequence of requests the answer to any request equals the answer of a "
-             "fresh process (memo tables never change an answer). Tie: sessions of requests in random order inside one "
+             "fresh process (memo tables never change an answer); a rule exact on the monomials below n integrates EVERY "
+             "polynomial with at most n coefficients exactly over every interval (polynomials with the exact integral pint, "
+             "fundamental theorem, additivity, affine substitution by the chain rule). Tie: sessions of requests in random order inside one "
              "interpreter compared with the model run over the same session; each returned rule is re-checked for exactness "
              "in Coq; Integrate.scalar (default, closed, open rules) compared with sum_i P_i (u_(i+p+1)-u_i)/(p+1).",
         design="7/C10",
@@ -171,8 +176,10 @@ CLAIMED = {
              "exact differential execution; the quadrature rule and span scaling it uses are read from the source.",
         design="7/C11",
         technique="Coq proof (certified linear solves, normal equations) + correspondence and exact orthogonality oracle by vm_compute",
-        note="The theorems speak about the model's quadrature inner product; that it is the exact L2 product of the pieces is "
-             "decided per case by the oracle (open rule of sufficient order). Known finding K7: the quadrature has p+q+3 nodes, so for |p-q| >= 3 the returned error is "
+        note="That the model's quadrature inner product IS the exact L2 product is proved (C11_gram_matrices_are_L2_products: "
+             "B-splines are polynomials on a span, each cell's rule is the exact integral of the product, Gram entries are sums of exact "
+             "integrals over the common partition - GF always, FF / GG for degree gaps <= 2; knots closer than the 1e-6 identity tolerance "
+             "excluded) and also decided per case by the oracle. Known finding K7: the quadrature has p+q+3 nodes, so for |p-q| >= 3 the returned error is "
              "not the exact integral; such pairs are outside the generated stream. Rational curves: K1."),
     "C12": dict(
         text="Unbounded theorems (Props/C12.v) about the model's fit_function (collocation rows from the model's basis "
@@ -198,9 +205,10 @@ CLAIMED = {
         design="7/C13",
         technique="Coq proof (certificates of the model's equality test; union refinement; exact projection) + correspondence and exact function oracle by vm_compute",
         note="Also proved (Props/C13.v): the test is reflexive; if B is A with knots inserted then A == B and B == A are both "
-             "True (separated knots; given the model's inverse certificates). PART: 'same function => True' in general "
-             "(completeness) needs linear independence of B-splines and is decided by the oracle only; invariance under degree "
-             "elevation is decided per case. Rational operands: "
+             "True (separated knots; given the model's inverse certificates); COMPLETENESS at equal degree: two polynomial "
+             "curves of the same degree that are the same function never compare unequal, and compare equal when the projections "
+             "succeed (C13_complete_equal_degree*, through linear independence of B-splines). PART: completeness across different "
+             "degrees and invariance under degree elevation need exactness of multi-span elevation and are decided per case by the oracle. Rational operands: "
              "the library's weighted projection is lossy (K1) - kept out of the stream."),
     "C14": dict(
         text="Decided per generated case inside Coq: a curve with control points in general position (its own minimal "
@@ -287,14 +295,16 @@ CLAIMED = {
              "over the whole piece (convexity), the result of the polyline projection is non-empty, sorted, inside the interval, "
              "every returned parameter attains the minimum over ALL pieces and ALL parameters, and a point of the curve projects "
              "onto parameters whose image is that point. PART: general curved pieces (floating Newton from 5 starts) are outside "
-             "the model and not claimed to be decided. Known finding K5: no "
-             "iteration bound - a zero-length piece makes the loop spin forever; such inputs are kept out of the stream."),
+             "the model and not claimed to be decided. The stream also holds the same polylines as degree-1 NURBS with random "
+             "weights (exact parameter warp in the check), curves whose control points were replaced after a first projection, and "
+             "polylines with a zero-length piece (the former known finding K5, repaired in /repo as F22)."),
     "C20": dict(
         text="Exact model of the intersection of planar polylines (pairwise line intersection with parameter tests, duplicates "
              "removed) compared with the implementation: every returned pair must lie in both intervals, be a meeting point "
              "(|A(t)-B(u)| <= 2e-6, exact evaluation of the polylines at the returned floats), be near a meeting point of the "
              "model, not repeat another pair, and every transversal crossing in the interior of two pieces must be reported; "
-             "curves that do not meet (far apart, near misses down to gap 1e-3, parallel pieces) must give the empty tuple; "
+             "curves that do not meet (far apart, parallel pieces, misses by 3e-6 .. 5e-4) must give the empty tuple; a straight "
+             "segment stored as a rational quadratic with an interior knot is evaluated with the exact NURBS specification; "
              "curves unchanged.",
         design="7/C20",
         technique="Coq proof (exact segment-intersection model: soundness and completeness for transversal pieces) + correspondence within rounding by vm_compute",
